@@ -1,21 +1,29 @@
 """C03 - drivers respect the evaluation budget and always return a result.
 
 Driver.tla is the specification of the budget protocol (database entries, evaluation counter, store /
-new-iteration listeners, termination causes, result, listener removal, DOE loop) with the optimization
-algorithm as an unconstrained environment.  TLC checks it exhaustively on small constants
-(Budget, BudgetTight, CounterExact, CounterFinal, AlwaysResult, NoListenerLeak, DoeOrder), and documents the
-two configurations in which the call budget has no mechanism (Jacobian-only requests that are not stored,
-no database).
+new-iteration listeners, termination causes, result, listener removal, sequential DOE loop, composite
+algorithms that swallow a stop) with the optimization algorithm as an unconstrained environment.  TLC
+checks it exhaustively on small constants (TypeOK, Budget, BudgetTight, CounterExact, CounterFinal,
+AlwaysResult, NoListenerLeak, DoeOrder) and documents the two configurations in which the call budget has
+no mechanism (Jacobian-only requests that are not stored; no database).
 
-Binding, code -> spec: every algorithm of OptimizationLibraryFactory and DOELibraryFactory is run on its
-admissible problem classes x budgets x normalisation x one or two consecutive executions; the events
-(original calls from inside the wrapped user callables, stores and new iterations from public database
-listeners registered before the driver's own, counter / len(database) snapshots, stop class, result,
-listeners left) are validated by DriverTrace.tla: every event must be a step of Driver and the clauses are
-evaluated by TLC in every state.  A rejected trace is re-run in the lenient mode of DriverTrace, which
-names the clause of the property broken by the observed states.
-spec -> code: the termination x budget corners of the exhaustive graph that real algorithms rarely
-produce are replayed with a scripted optimization library (c03_script.py).
+Binding
+  code -> spec (main): every algorithm of OptimizationLibraryFactory and DOELibraryFactory that runs
+    offline is executed on its admissible problem classes (unconstrained / inequality / equality / NaN
+    region in the objective or in a constraint / raising objective / integer variable; linear problems for
+    the linear solvers) x budgets {1,2,3,5,10} x normalisation on/off x one or two consecutive executions
+    (counter reset or not, same or fresh library instance) + variants (no database, Jacobians not stored,
+    KKT tolerance, loose x/f tolerances, time limit, finite differences).  The recorder (c03_rec.py) logs the
+    original calls from inside the wrapped user callables, stores / new iterations from public database
+    listeners registered before the driver's own, counter and len(database) snapshots, the stop class, the
+    result and the listeners left on the database.  DriverTrace.tla validates every trace: each event must be
+    a step of Driver (strict mode) and the clauses are evaluated by TLC in every state; a rejected trace is
+    re-run in the lenient mode, where TLC evaluates the clauses on the observed states and names the one that
+    broke (otherwise: TraceConformance at the event that is not a step of the specification).
+  spec -> code (c03_script.py): behaviours of the exhaustive Driver graph (every kind of transition, completed
+    to a final state) are forced on gemseo with a scripted optimization library / CustomDOE, scripted
+    outcomes of the user functions, a fake clock; the final abstract state computed by TLC is compared with
+    the projection of the real objects.
 """
 from __future__ import annotations
 
@@ -33,12 +41,12 @@ ACTIONS = ("Execute", "PreRunDone", "AskOwn", "OrigCall", "Store", "NewIter", "N
 
 
 def model_cfg(*, points=2, nfuncs=2, maxexec=2, maxn=2, nxs="{2}", usedb="{TRUE}", storejac="{TRUE}",
-              nanpt=True, assume=False, composites="{FALSE}", invs=INVS, extra=""):
+              nanpt=True, assume=False, composites="{FALSE}", kkts="{TRUE}", invs=INVS, extra=""):
     s = "CONSTANTS\n"
     s += f" Points = {{{', '.join(str(i) for i in range(1, points + 1))}}}\n NFuncs = {nfuncs}\n"
     s += f" MaxExec = {maxexec}\n AssumeValueFirst = {'TRUE' if assume else 'FALSE'}\n MaxN = {maxn}\n"
     s += f" NXs = {nxs}\n UseDbs = {usedb}\n StoreJacs = {storejac}\n WithNanPt = {'TRUE' if nanpt else 'FALSE'}\n"
-    s += f" Composites = {composites}\n"
+    s += f" Composites = {composites}\n Kkts = {kkts}\n"
     s += "SPECIFICATION Spec\nCHECK_DEADLOCK FALSE\n"
     for i in invs:
         s += f"INVARIANT {i}\n"
@@ -47,7 +55,7 @@ def model_cfg(*, points=2, nfuncs=2, maxexec=2, maxn=2, nxs="{2}", usedb="{TRUE}
 
 def trace_cfg(lenient):
     return ("CONSTANTS\n Points = {1}\n NFuncs = 1\n MaxExec = 99\n AssumeValueFirst = FALSE\n MaxN = 1\n"
-            " NXs = {2}\n UseDbs = {TRUE}\n StoreJacs = {TRUE}\n WithNanPt = FALSE\n Composites = {FALSE}\n"
+            " NXs = {2}\n UseDbs = {TRUE}\n StoreJacs = {TRUE}\n WithNanPt = FALSE\n Composites = {FALSE}\n Kkts = {TRUE}\n"
             f" Lenient = {'TRUE' if lenient else 'FALSE'}\n"
             "INIT TInit\nNEXT Next2\nCONSTRAINT Reach\nPOSTCONDITION Accepted\nCHECK_DEADLOCK FALSE\n")
 
@@ -68,6 +76,7 @@ NO_N_SAMPLES = {
 BUDGETS = (1, 2, 3, 5, 10)
 COMPOSITE = ("MultiStart", "Augmented_Lagrangian_order_0", "Augmented_Lagrangian_order_1")
 SUBLEVEL_CALLS = ("Augmented_Lagrangian_order_0", "Augmented_Lagrangian_order_1")
+NO_OWN_STOP = ("DUAL_ANNEALING", "SHGO", "DIFFERENTIAL_EVOLUTION")
 MIN_BUDGET = {"MultiStart": 3}   # documented: max_iter must exceed n_start (2 here)
 
 
@@ -87,7 +96,14 @@ def opt_cases(ck: Check, fo):
             kinds.append("eq")
         if d.handle_integer_variables:
             kinds.append("int")
-        kinds.append("raise")
+        if algo not in SUBLEVEL_CALLS:
+            kinds.append("raise")
+        else:
+            skipped[algo + "/call-clause"] = (
+                "the sub-problems call the original functions through their own databases: only the entries, the "
+                "counter, the listeners and the result of the main level are validated (no orig events)")
+        if algo == "MultiStart":
+            kinds = [k for k in kinds if k != "int"]      # its sub-algorithm (SLSQP) does not take integers
         linear = bool(d.for_linear_problems) or algo == "Scipy_MILP"
         if linear:
             kinds = [k for k in kinds if k in ("unc", "ineq", "eq")]
@@ -133,6 +149,9 @@ def record_opt(fo, tid, algo, kind, linear, grad, n, norm, second, variant, rng)
         st.update(xtol_abs=0.5, ftol_abs=0.5, stop_crit_n_x=2)
     if variant == "time":
         st["max_time"] = 1e-9
+    if variant == "fd":
+        rec.problem.differentiation_method = "finite_differences"
+        rec.fd = True
     nx = st.get("stop_crit_n_x", 3)
     lib = fo.create(algo)
     meta = dict(kind="opt", algo=algo, problem=kind + ("-lin" if linear else ""), N=n, normalize=norm, second=second,
@@ -216,7 +235,8 @@ def validate(ck: Check, traces, tag):
             at = d[3] if d and d[2] != "ok" else reached
         sig = {"kind": m["kind"], "algo": m["algo"], "problem": m["problem"], "normalize": m["normalize"],
                "second": m["second"] or "", "variant": m["variant"], "event": nxt["ev"] if nxt else "",
-               "exception": next((e["exc"] for e in ev if e["ev"] == "end" and e["crashed"]), "")}
+               "exception": next((e["exc"] for e in ev if e["ev"] == "end" and e["crashed"]), ""),
+               "detail": next((e["excmsg"] for e in ev if e["ev"] == "end" and e["crashed"]), "")}
         lo = max(0, min(reached, at) - 6)
         ck.violation(clause, sig, {"meta": m, "matched_events": reached, "total_events": total, "clause_at": at,
                                    "next_event": nxt, "events_around": ev[lo:reached + 3], "first_exec": ev[0]})
@@ -250,11 +270,17 @@ def run(ck: Check):
     if ck.thorough:
         ck.tlc("Driver", model_cfg(points=2, nfuncs=2, maxexec=2, maxn=2), workers=8, timeout=1500,
                require_actions=ACTIONS + ("KktPass", "KktStop"))
-        ck.tlc("Driver", model_cfg(points=3, nfuncs=2, maxexec=1, maxn=3, nxs="{2, 3}"), workers=8, timeout=1500,
+        ck.tlc("Driver", model_cfg(points=2, nfuncs=2, maxexec=1, maxn=2, composites="{FALSE, TRUE}"), workers=8,
+               timeout=1500, require_actions=ACTIONS + ("Resume",))
+        ck.tlc("Driver", model_cfg(points=3, nfuncs=1, maxexec=1, maxn=2, nxs="{2, 3}"), workers=8, timeout=1500,
                require_actions=ACTIONS)
+        # (3 points, 2 functions, budgets 1..3, one execution: 19 594 504 distinct states, all clauses hold;
+        #  32 min on this machine, run by hand once - too long for the tier)
     else:
         ck.tlc("Driver", model_cfg(points=2, nfuncs=1, maxexec=2, maxn=2), workers=8, timeout=600,
                require_actions=ACTIONS + ("KktPass", "KktStop"))
+        ck.tlc("Driver", model_cfg(points=2, nfuncs=1, maxexec=1, maxn=2, composites="{FALSE, TRUE}"), workers=8,
+               timeout=600, require_actions=ACTIONS + ("Resume",))
         ck.tlc("Driver", model_cfg(points=2, nfuncs=2, maxexec=1, maxn=2), workers=8, timeout=600,
                require_actions=ACTIONS)
     # Jacobians not stored: the budget holds under the environment assumption DriverAsksValueWithJacobian ...
@@ -292,13 +318,22 @@ def run(ck: Check):
                 for second in (None, "reset", "noreset"):
                     plan.append(("opt", algo, kind, linear, grad, n, norm, second, "std"))
         if kind in ("unc", "ineq"):
-            for variant in ("nodb", "nojac", "kkt", "tol", "time"):
+            for variant in ("nodb", "nojac", "kkt", "tol", "time", "fd"):
+                if variant == "fd" and not grad:
+                    continue
+                if variant == "nodb" and algo in NO_OWN_STOP:
+                    skipped[algo + "/use_database=False"] = (
+                        "the wrapper disables the library's own stopping criteria and gemseo has none without "
+                        "a database: the run would not stop")
+                    continue
                 for n in (3, 5):
                     plan.append(("opt", algo, kind, linear, grad, n, True, "reset", variant))
     for algo in fd.algorithms:
         for kind in ("ineq", "raise", "nan", "int"):
             for n in BUDGETS:
                 for norm in (False, True):
+                    if norm and (n != 3 or kind != "ineq"):
+                        continue          # normalize_design_space=True: one budget and problem class per DOE (D0301)
                     for second in (None, "reset", "noreset"):
                         plan.append(("doe", algo, kind, False, False, n, norm, second, "std"))
             for variant in ("jac", "nodb"):
@@ -313,11 +348,14 @@ def run(ck: Check):
             (rest if key in seen else first).append(c)
             seen.add(key)
         plan = first + rest[:max(0, 520 - len(first))]
-    traces, refused = [], {}
+    traces, refused, runaway = [], {}, {}
     for tid, c in enumerate(plan, 1):
         fam, algo, kind, linear, grad, n, norm, second, variant = c
         if os.environ.get("C03_DEBUG"):
             print("case", tid, c, flush=True)
+        if algo in runaway:
+            runaway[algo] += 1
+            continue
         try:
             if fam == "opt":
                 t = record_opt(fo, tid, algo, kind, linear, grad, n, norm, second, variant, rng)
@@ -329,6 +367,8 @@ def run(ck: Check):
         if t is None:
             refused[f"{algo}"] = "no settings known for this algorithm on a 2-variable space"
             continue
+        if any(e["ev"] == "end" and e["exc"] == "Runaway" for e in t["events"]):
+            runaway[algo] = 0        # reported once (below); its other cases are not run
         if setting_error(t):
             e = next(e for e in t["events"] if e["ev"] == "end")
             refused[f"{algo}/{kind}/N={n}"] = f"settings refused before any evaluation: {e['exc']}"
@@ -342,6 +382,7 @@ def run(ck: Check):
     ck.extra["executions_recorded"] = sum(1 for t in traces for e in t["events"] if e["ev"] == "exec")
     ck.extra["algorithms_run"] = sorted({t["meta"]["algo"] for t in traces})
     ck.extra["algorithms_skipped"] = skipped
+    ck.extra["cases_dropped_after_a_run_that_did_not_stop"] = runaway
     ck.extra["combinations_refused"] = dict(sorted(refused.items())[:60])
     ck.extra["stop_classes_seen"] = sorted({e["cause"] for t in traces for e in t["events"] if e["ev"] == "end"})
     if len(ck.extra["algorithms_run"]) < 40:
